@@ -293,11 +293,10 @@ def pointer_range_loops(chk, prog, rule="no-pointer-range-loop-over-generic-elem
 
 
 # allocation functions that (documentedly) do not keep the value they are given
-VALUE_NOT_KEPT = {
-    "zst_cache::ZstCache::alloc": "returns the cache's shared pointer for a cacheable ZST; the passed (zero-sized) value is given up "
-                                  "right there - reviewed, documented on the type",
-    "zst_cache::ZstCache::alloc_static": "same as ZstCache::alloc",
-}
+# (ZstCache::alloc / alloc_static used to be excepted here - "the passed zero-sized value is given up right there, reviewed".
+# It was a genuine defect (F10): the returned Gc<T> referred to a destructed value. Since fix 1f3a763 the cached pointer is
+# used only where needs_drop::<T>() is false, which the rule below understands; the exception table is empty.)
+VALUE_NOT_KEPT = {}
 
 
 def value_moved_into_block(chk, prog, rule="value-moved-into-block"):
@@ -340,10 +339,40 @@ def value_moved_into_block(chk, prog, rule="value-moved-into-block"):
                                     st["r"]["o"]["p"]["l"] in owned and st["p"]["l"] not in owned:
                                 owned.add(st["p"]["l"])
                                 changed = True
+                # blocks entered only after `needs_drop::<T>()` answered false for the value's own type: dropping the value
+                # there runs no destructor - nothing the block would have to keep
+                glue_free = set()
+                for bi_, bb_ in enumerate(b["blocks"]):
+                    t_ = bb_["t"]
+                    if t_ and t_["k"] == "call" and norm((t_["f"].get("resolved") or t_["f"]).get("def", "")) in (
+                            "core::mem::needs_drop", "core::intrinsics::needs_drop") and t_.get("t") is not None:
+                        ga = [a_ for a_ in t_["f"].get("args", []) if "ty" in a_]
+                        if not ga or prog.ty(ga[0]["ty"]).get("s") != t["s"]:
+                            continue
+                        res = t_["d"]["l"]
+                        # follow to the switch on the result (possibly through a `!`)
+                        for bj, bbj in enumerate(b["blocks"]):
+                            tj = bbj["t"]
+                            if not tj or tj["k"] != "switch" or tj["o"].get("k") not in ("copy", "move"):
+                                continue
+                            src = tj["o"]["p"]["l"]
+                            negated = False
+                            if src != res:
+                                for s_ in bbj["s"]:
+                                    if s_["k"] == "assign" and s_["p"]["l"] == src and s_["r"]["k"] == "unary" and \
+                                            s_["r"].get("op") == "Not" and s_["r"]["o"].get("p", {}).get("l") == res:
+                                        negated = True
+                                if not negated:
+                                    continue
+                            zero_target = tj["targets"][tj["vals"].index(0)] if 0 in tj["vals"] else None
+                            false_edge = tj["otherwise"] if negated else zero_target
+                            if false_edge is not None:
+                                dom_ = cfg.dominators(b, unwind=False)
+                                glue_free |= {x for x in range(len(b["blocks"])) if false_edge in dom_[x]}
                 bad = []
                 for x in cfg.reach_from(b, [0], unwind=False):
                     tt = b["blocks"][x]["t"]
-                    if tt and tt["k"] == "drop" and not b["blocks"][x].get("c") and tt["p"]["l"] in owned:
+                    if tt and tt["k"] == "drop" and not b["blocks"][x].get("c") and tt["p"]["l"] in owned and x not in glue_free:
                         bad.append(tt["l"])
                 chk.inst(rule, "%s(%s)" % (f["n"], a.get("name") or i), not bad,
                          detail="`%s` can reach its end still owning the value it was given for allocation (drop at line %s): "
@@ -551,3 +580,30 @@ def block_exposed_only_after_disarm(chk, prog, rule="block-exposed-only-after-di
     chk.floor("functions-holding-a-builder", examined, 20)
     chk.extra["builder_block_exposures"] = {"functions_holding_a_builder": examined, "exposures_of_a_held_block": n,
                                             "pointer_constructors": sorted(ctors)}
+
+
+# ------------------------------------------------------------------------------------------------ variance of the builders
+
+def builders_invariant_in_value_type(chk, prog, rule="builders-invariant-in-value-type"):
+    """A builder is registered - vtable (trace / drop entries), needs-trace flag - for the value type it has when it is
+    made, and written with the value type it has when it is completed. The two are the same type only if the builder
+    is *invariant* in every type parameter the value type is made of (as Gc itself is): with a covariant parameter,
+    plain subtyping turns a builder registered for `Static<Box<dyn Fn() + 'static>>` (nothing to trace) into one that
+    accepts a closure owning Gc pointers. The metadata / marker parameters (M, P: 'static data in the vtable, a marker
+    type) are exempt by name; any other type parameter must be invariant (variances from the compiler)."""
+    EXEMPT = {"M", "P"}
+    n = 0
+    for bt in BUILDER_TYPES:
+        a = prog.adts.get(bt)
+        if a is None:
+            continue
+        for g in a.get("generics", []):
+            if g.get("kind") != "type" or g.get("name") in EXEMPT:
+                continue
+            n += 1
+            chk.inst(rule, "%s<%s>" % (bt, g["name"]), g.get("variance") == "o",
+                     detail="type parameter %s of %s has variance `%s` (must be invariant `o`): between registration and "
+                            "completion the builder's value type can be changed by subtyping, so the allocation is registered "
+                            "(vtable, needs-trace flag) for one type and written as another" % (g["name"], bt, g.get("variance")),
+                     loc="%s:%s" % (a["span"]["f"], a["span"]["l"]), sample={"type": bt, "param": g["name"], "variance": g.get("variance")})
+    chk.floor("builder-value-type-parameters", n, 6)
